@@ -587,6 +587,40 @@ def bucket_provenance(prog):
         stats[op] = {"paths": len(paths), "effects": n_eff}
         if n_eff == 0:
             raise Inconclusive("no effect of %s explored" % op)
+    # reads: what is opened / read / stat-ed belongs to the addressed bucket, or is the copy source the request names
+    READS = {"fs.open": 0, "fs.read": 0, "fs.stat": 0, "fs.exists": 0}
+    src_forms = (lambda k: k.startswith("object_path(src_bucket,src_key)"), lambda k: k.startswith("metadata_path(src_bucket,src_key,"),
+                 lambda k: k.startswith("internal_info_path(src_bucket,src_key)"))
+    own_forms = ok_forms + (lambda k: k.startswith("bucket_path(bucket)"),)
+    for op in ("get_object", "head_object", "copy_object", "upload_part_copy", "delete_object", "put_object"):
+        if op == "get_object":
+            m = StoreModel(prog, op)
+            fn = prog.find_method("FileSystem", op)
+
+            def body(m, fn=fn):
+                m.reset()
+                inp = Struct("GetObjectInput", {"bucket": Term("bucket"), "key": Term("key"), "range": none()})
+                fs = Struct("FileSystem", {"root": Term("abs", "ROOT"), "tmp_file_counter": Struct("__Atomic", {})})
+                try:
+                    r = m.ex.call_fn(fn, [fs, Struct("S3Request", {"input": inp, "credentials": Term("opt_credentials")})], "s3", self_ty="FileSystem")
+                    return TupleV(["ret", r])
+                except rsx.PanicSig as p:
+                    return TupleV(["panic", json.dumps(p.what)])
+            m.root = body
+            paths = m.ex.explore(ROOT, [], "s3")
+        else:
+            m, paths = explore(prog, op)
+        n_reads = 0
+        for p in paths:
+            for n, a, kw in p.events:
+                if n not in READS:
+                    continue
+                k = kw["keys"][READS[n]]
+                n_reads += 1
+                allowed = any(f(k) for f in own_forms) or (op in ("copy_object", "upload_part_copy") and any(f(k) for f in src_forms))
+                if not allowed:
+                    findings.setdefault("read-provenance:%s:%s" % (op, n[3:]), ("%s reads %s, which belongs neither to the addressed bucket nor to the copy source the request names" % (op, k), {"op": op, "path": k}))
+        stats[op + ":reads"] = {"paths": len(paths), "effects": n_reads}
     return findings, stats
 
 
